@@ -453,23 +453,7 @@ func (m *Mast) Insert(ctx context.Context, key, value interface{}) error {
 			return m.savePathForRoot(ctx, options.path)
 		}
 	}
-	// XXX do after split, XXX mark tree invalid if split fails
-	node = node.ToMut(ctx, m)
-	node.Dirty()
-	if i < len(node.Key) {
-		node.Key = append(node.Key[:i+1], node.Key[i:]...)
-		node.Key[i] = key
-		node.Value = append(node.Value[:i+1], node.Value[i:]...)
-		node.Value[i] = value
-	} else {
-		node.Key = append(node.Key, key)
-		node.Value = append(node.Value, value)
-	}
-	if i < len(node.Link) {
-		node.Link = append(node.Link[:i+1], node.Link[i:]...)
-	} else {
-		node.Link = append(node.Link, nil)
-	}
+	// split the child first: it can fail, and the node must not be touched before
 	var leftLink interface{}
 	var rightLink interface{}
 	if node.Link[i] != nil {
@@ -491,6 +475,22 @@ func (m *Mast) Insert(ctx context.Context, key, value interface{}) error {
 		}
 		leftLink = nil
 		rightLink = node.Link[i]
+	}
+	node = node.ToMut(ctx, m)
+	node.Dirty()
+	if i < len(node.Key) {
+		node.Key = append(node.Key[:i+1], node.Key[i:]...)
+		node.Key[i] = key
+		node.Value = append(node.Value[:i+1], node.Value[i:]...)
+		node.Value[i] = value
+	} else {
+		node.Key = append(node.Key, key)
+		node.Value = append(node.Value, value)
+	}
+	if i < len(node.Link) {
+		node.Link = append(node.Link[:i+1], node.Link[i:]...)
+	} else {
+		node.Link = append(node.Link, nil)
 	}
 
 	node.Link[i] = leftLink
